@@ -3,6 +3,8 @@ use samlang_ast::{hir, lir, mir, wasm};
 use samlang_heap::{Heap, ModuleReference, PStr};
 use std::collections::{BTreeMap, HashMap};
 
+use crate::lir_lowering::first_parameter_is_this;
+
 struct TypeLoweringContext<'a> {
   function_type_mapping: HashMap<wasm::FunctionType, mir::TypeNameId>,
   heap: &'a mut Heap,
@@ -161,7 +163,7 @@ impl<'a> LoweringManager<'a> {
     // For closure functions (first param named "_this"), get the explicit type name.
     // This is needed for call_indirect to work correctly - the function's type must
     // match the type used in call_indirect exactly.
-    let type_name = if function.parameters.first() == Some(&PStr::UNDERSCORE_THIS) {
+    let type_name = if first_parameter_is_this(instance.type_cx.heap, &function.parameters) {
       Some(instance.type_cx.lower_function_type(&function.type_))
     } else {
       None
